@@ -61,10 +61,19 @@ class Member:
     """One block of the collection together with the symbols injected into it."""
 
     def __init__(self, ctx, k, btype, pattern, zeroFlux=True, burn=True, h=None, zeroAt=None, symT=True, fat=False,
-                 odd=None):
+                 odd=None, order=None, extra=None):
         self.k = k
         self.b = b = _build.mk_block(btype, height=10.0 if is_sym(h) else h, intercoolant=(odd == "outer"))
         b.name = "B%04d" % k
+        self.order = order
+        if order is not None:
+            # the order in which the components are ADDED to the block (a blueprint may list the duct or the clad before
+            # the fuel); mk_block adds them in ascending size
+            comps = {c.name: c for c in b}
+            b.removeAll(recomputeAreaFractions=False)
+            for name in list(order) + [n for n in comps if n not in order]:
+                b.add(comps[name])
+            assert [c.name for c in b][:len(order)] == list(order)
         if odd == "inner":
             # another pin design: annular fuel around a central liner (one more component, innermost)
             b.getComponentByName("fuel").setDimension("id", 0.3)
@@ -90,8 +99,9 @@ class Member:
         # (equal to getVolume() of the component up to rounding; C02 checks that relation on its own)
         self.vf = {c.name: f for c, f in b.getVolumeFractions()}
         for name, v in self.vol.items():
-            ctx.check_close("member %d: volume fraction x block volume = volume of %s" % (k, name),
-                            self.vf[name] * self.V, v, scale=v)
+            if is_sym(v) or v > 0:            # (a member of zero height has no volumes to compare)
+                ctx.check_close("member %d: volume fraction x block volume = volume of %s" % (k, name),
+                                self.vf[name] * self.V, v, scale=v)
         self.h = h
         self.dens = {}
         self.T = {}
@@ -111,6 +121,9 @@ class Member:
                     continue
                 lo = 0.0 if spec.endswith("?") and (zeroAt is None or k in zeroAt) else 1e-6
                 nd[nuc] = self.dens[(c.name, nuc)] = ctx.real("n%d_%s_%s" % (k, c.name, nuc), lo, 1.0)
+            for (cn, nuc), x in (extra or {}).items():
+                if cn == c.name:
+                    nd[nuc] = self.dens[(cn, nuc)] = x       # a nuclide that only this member holds
             c.p.numberDensities = nd
             if symT:
                 self.T[c.name] = ctx.real("T%d_%s" % (k, c.name), TLO, THI)
@@ -131,7 +144,8 @@ class Member:
         """A second, independent block carrying the same values (weighting parameter optionally rescaled)."""
         b = _build.mk_block(self.b.getType(), height=self.h, intercoolant=False)
         b.name = self.b.name + "t"
-        for c, c0 in zip(b, self.b):
+        for c in b:
+            c0 = self.b.getComponentByName(c.name)
             c.getVolume()
             c.p.numberDensities = dict(c0.p.numberDensities)
             c.temperatureInC = c0.temperatureInC
@@ -148,6 +162,8 @@ class Member:
     def values(self, ctx, nucs):
         """homogenised densities as the member's public getter reports them (cross-checked with the definition)"""
         self.x = dict(zip(nucs, self.b.getNuclideNumberDensities(nucs)))
+        if not is_sym(self.V) and self.V == 0:
+            return              # a member of zero height: no volume-weighted definition to compare with
         for nuc in nucs:
             ctx.check_close("member %d: N(%s) is the volume-weighted mean of its components" % (self.k, nuc),
                             self.x[nuc], self.N(nuc), scale=self.N(nuc) + 1e-30)
@@ -224,15 +240,47 @@ def eligible(btype, valid):
     return any(set(t.split()) <= words for t in valid)
 
 
-def build(ctx, case, pattern, symH=False, allZeros=False, **kw):
+# orders in which the three components of a member are added to it (the first one is the ascending-size order of
+# _build.mk_block, which is how most inputs happen to list them)
+ORDERS = [["fuel", "clad", "duct"], ["duct", "clad", "fuel"], ["clad", "duct", "fuel"], ["duct", "fuel", "clad"]]
+
+
+def holder_sets(types, valid):
+    """Which members hold a nuclide that the others do not have at all: every single member (eligible or not, first or
+    not) and all eligible members but the first one."""
+    n = len(types)
+    el = [k for k, t in enumerate(types) if eligible(t, valid)]
+    sets = [(k,) for k in range(n)]
+    if len(el) > 2:
+        sets.append(tuple(el[1:]))
+    return sets
+
+
+def build(ctx, case, pattern, symH=False, allZeros=False, orders=None, someHold=None, **kw):
     """allZeros: every "X?" density of every member may be exactly zero (2^n trace/non-trace paths); otherwise only
-    the one of a single eligible member (quick tier)."""
+    the one of a single eligible member (quick tier).
+    orders: the order in which the components are added to the members is a symbolic choice among these.
+    someHold: a nuclide (held by the fuel with a symbolic density) that only some members have; which ones is a
+    symbolic choice (holder_sets)."""
     types, valid = CASES[case]
     hs = heights(len(types), ctx if symH else None)
     n = len(types)
     kw.setdefault("zeroAt", None if symH or allZeros else (min(1, n - 1),))
     fatFirst = kw.pop("fatFirst", False)
-    members = [Member(ctx, k, t, pattern, h=hs[k], fat=(fatFirst and k == 0), **kw) for k, t in enumerate(types)]
+    flat = kw.pop("flat", None)
+    if flat is not None:
+        hs[flat] = 0.0            # a member of zero height (hence zero volume)
+    if orders:
+        kw["order"] = ctx.choice("componentOrder", orders)
+    extras = [None] * n
+    if someHold:
+        xs = [ctx.real("n%d_fuel_%s" % (k, someHold), 1e-6, 1.0) for k in range(n)]     # (declared on every path)
+        holders = ctx.choice("membersHolding" + someHold, holder_sets(types, valid))
+        extras = [({("fuel", someHold): xs[k]} if k in holders else None) for k in range(n)]
+    # (a member of zero height keeps its concrete build temperatures: its zero volumes cannot be cached, see STUBS)
+    members = [Member(ctx, k, t, pattern, h=hs[k], fat=(fatFirst and k == 0), extra=extras[k],
+                      **dict(kw, **({"symT": False} if k == flat else {})))
+               for k, t in enumerate(types)]
     for m in members:
         m.values(ctx, NUCS)
     for m, t in zip(members, types):
@@ -260,13 +308,20 @@ def mixed_zero(elig, weighted):
                               dict(case="first_out", pattern="typical", kind="volume"),
                               dict(case="one", pattern="sparse", kind="flux"),
                               dict(case="all2", pattern="typical", kind="flux", symH=True),
-                              dict(case="compound_mid_out", pattern="shared", kind="flux")],
+                              dict(case="compound_mid_out", pattern="shared", kind="flux"),
+                              # a nuclide that only some members hold (which ones: solver-chosen, the first eligible
+                              # member -- the template of the representative block -- or a later one)
+                              dict(case="all2", pattern="sparse", kind="volume", someHold="PU239"),
+                              dict(case="first_out", pattern="sparse", kind="flux", someHold="PU239")],
                     "thorough": [dict(case=c, pattern=p, kind=k, symH=s, allZeros=True)
                                  for c in ("all3", "last_out", "first_out", "compound_mid_out", "compound_two_types",
                                            "superset_in") for p in PATTERNS
-                                 for k in ("flux", "volume") for s in (False, True)]})
-def average_block_is_weighted_mean(ctx, case, pattern, kind, symH=False, allZeros=False):
-    members, elig, valid = build(ctx, case, pattern, symH=symH, allZeros=allZeros, burn=False)
+                                 for k in ("flux", "volume") for s in (False, True)] +
+                                [dict(case=c, pattern=p, kind=k, someHold="PU239")
+                                 for c in ("all3", "last_out", "first_out", "compound_mid_out")
+                                 for p in ("typical", "sparse") for k in ("flux", "volume")]})
+def average_block_is_weighted_mean(ctx, case, pattern, kind, symH=False, allZeros=False, someHold=None):
+    members, elig, valid = build(ctx, case, pattern, symH=symH, allZeros=allZeros, burn=False, someHold=someHold)
     weighted = kind == "flux"
     col = make_collection(kind, valid)
     col.extend(m.b for m in members)
@@ -341,13 +396,22 @@ def check_nuclide_temperatures(ctx, col, elig, ws):
                               dict(case="last_out", pattern="shared", kind="flux"),
                               dict(case="first_out", pattern="shared", kind="volume"),
                               dict(case="all2", pattern="typical", kind="flux", symH=True),
-                              dict(case="compound_first_out", pattern="typical", kind="volume")],
+                              dict(case="compound_first_out", pattern="typical", kind="volume"),
+                              # the order in which the components were added to the blocks is solver-chosen
+                              dict(case="all2", pattern="typical", kind="volume", orders=ORDERS[:3])],
                     "thorough": [dict(case=c, pattern=p, kind=k, symH=s, allZeros=True)
                                  for c in ("all3", "all2", "last_out", "first_out", "compound_mid_out",
                                            "compound_last_out") for p in PATTERNS
-                                 for k in ("flux", "volume") for s in (False, True)]})
-def component_average_is_weighted_mean(ctx, case, pattern, kind, symH=False, allZeros=False):
-    members, elig, valid = build(ctx, case, pattern, symH=symH, allZeros=allZeros, burn=False)
+                                 for k in ("flux", "volume") for s in (False, True)] +
+                                [dict(case=c, pattern=p, kind=k, orders=ORDERS, someHold=h)
+                                 for c in ("all3", "first_out") for p in ("typical", "shared")
+                                 for k in ("flux", "volume") for h in (None, "PU239")] +
+                                [dict(case="last_out", pattern="sparse", kind="flux", orders=ORDERS[1:3],
+                                      someHold="PU239")]})
+def component_average_is_weighted_mean(ctx, case, pattern, kind, symH=False, allZeros=False, orders=None,
+                                       someHold=None):
+    members, elig, valid = build(ctx, case, pattern, symH=symH, allZeros=allZeros, burn=False, orders=orders,
+                                 someHold=someHold)
     weighted = kind == "flux"
     col = make_collection(kind, valid, byComponent=True)
     col.extend(m.b for m in members)
@@ -405,18 +469,32 @@ def component_average_is_weighted_mean(ctx, case, pattern, kind, symH=False, all
 # averaged burnup is the heavy-metal-weighted mean".  _calcWeightedBurnup loops over ALL members.
 KNOWN_DEFECT_burnup_counts_ineligible_members = False  # repaired in /repo (fix: 3bb5d80)
 
+# Reported by an independent engineer and confirmed on the unchanged tree: _calcWeightedBurnup divides the block weight
+# by b.getVolume() to take the volume out again, but getWeight() uses `block.getVolume() or 1.0` ("don't return 0"): a
+# member of zero volume (zero height) makes createRepresentativeBlock of an averaging collection raise
+# ZeroDivisionError, although the rest of the averaging copes with it.  Plain-Python reproduction:
+#   bs = [mk_block("fuel", height=h, intercoolant=False) for h in (0.0, 20.0)]; col = AverageBlockCollection(nucs);
+#   col.extend(bs); col.createRepresentativeBlock()  ->  ZeroDivisionError at crossSectionGroupManager.py:262
+# Patch: /tmp/scratch/triage/KNOWN_DEFECT_burnup_divides_by_zero_volume.diff; the zero-height instances below are
+# switched on when the flag is False.
+KNOWN_DEFECT_burnup_divides_by_zero_volume = True
+_FLAT = [] if KNOWN_DEFECT_burnup_divides_by_zero_volume else [dict(case="all3", kind="flux", flat=1),
+                                                                 dict(case="first_out", kind="volume", flat=2)]
+
 
 @harness("C20", bounds="<=3 real HexBlocks; symbolic percentBu in [0,100], massHmBOL in [0,1e5] (incl. 0), flux in "
-                       "[0,1e3] incl. 0; block-type filters enumerated",
+                       "[0,1e3] incl. 0; block-type filters enumerated; instances with one member of zero height (zero volume)",
          stubs=STUBS, qtimeout_ms=20000,
          instances={"quick": [dict(case="all3", kind="flux"), dict(case="all2", kind="volume"),
                               dict(case="last_out", kind="flux"), dict(case="first_out", kind="volume"),
                               dict(case="all3", kind="flux", fatFirst=True), dict(case="all2", kind="volume", fatFirst=True),
-                              dict(case="compound_two_types", kind="flux"), dict(case="superset_in", kind="volume")],
+                              dict(case="compound_two_types", kind="flux"), dict(case="superset_in", kind="volume")]
+                             + _FLAT,
                     "thorough": [dict(case=c, kind=k, fatFirst=f) for c in CASES for k in ("flux", "volume")
-                                 for f in (False, True)]})
-def averaged_burnup_is_heavy_metal_weighted_mean(ctx, case, kind, fatFirst=False):
-    members, elig, valid = build(ctx, case, "sparse", burn=True, fatFirst=fatFirst)
+                                 for f in (False, True)] +
+                                [dict(i, flat=f) for i in _FLAT for f in (0, 1, 2)]})
+def averaged_burnup_is_heavy_metal_weighted_mean(ctx, case, kind, fatFirst=False, flat=None):
+    members, elig, valid = build(ctx, case, "sparse", burn=True, fatFirst=fatFirst, flat=flat)
     weighted = kind == "flux"
     col = make_collection(kind, valid)
     col.extend(m.b for m in members)
@@ -443,29 +521,67 @@ def averaged_burnup_is_heavy_metal_weighted_mean(ctx, case, kind, fatFirst=False
               OR(tot == 0, AND(got >= MIN(*bus) - 1e-9, got <= MAX(*bus) + 1e-9)))
 
 
+# Reported by an independent engineer and confirmed on the unchanged tree: MedianBlockCollection._makeRepresentativeBlock
+# calls lfpCollection.setGasRemovedFrac(...), a method that LumpedFissionProductCollection does not have (nothing in
+# armi defines it): whenever the median member carries lumped fission products (fpModel MO99 / infinitelyDilute),
+# createRepresentativeBlock raises AttributeError.  Plain-Python reproduction:
+#   b = mk_block("fuel"); b.setLumpedFissionProducts(lumpedFissionProductFactory({"fpModel": "MO99"}))
+#   col = MedianBlockCollection(nucs); col.append(b); col.createRepresentativeBlock()
+#   -> AttributeError: 'LumpedFissionProductCollection' object has no attribute 'setGasRemovedFrac'
+# Patch: /tmp/scratch/triage/KNOWN_DEFECT_median_block_with_lumped_fission_products_raises.diff; the instances whose
+# members carry lumped fission products are switched on when the flag is False.
+KNOWN_DEFECT_median_block_with_lumped_fission_products_raises = True
+_LFP = [] if KNOWN_DEFECT_median_block_with_lumped_fission_products_raises else [dict(case="all2", wparam="flux", lfp=True)]
+
+
+def lfp_content(col):
+    """{lumped fission product: {nuclide: yield}} of a collection (None when there is none)"""
+    return None if col is None else {name: {nb.name: y for nb, y in lfp.items()} for name, lfp in col.items()}
+
+
 @harness("C20", bounds="<=3 real HexBlocks; symbolic percentBu in [0,100] (ties included), flux in [1e-3,1e3], "
-                       "densities, temperatures; weighting parameter None (volume) or flux; type filters enumerated",
+                       "densities, temperatures; weighting parameter None (volume) or flux; type filters enumerated; "
+                       "instances whose members carry lumped fission products (the MO99 model's collection)",
          stubs=STUBS, qtimeout_ms=20000,
          instances={"quick": [dict(case="all3", wparam=None), dict(case="all3", wparam="flux"),
                               dict(case="all2", wparam="flux"), dict(case="last_out", wparam="flux"),
                               dict(case="first_out", wparam=None), dict(case="one", wparam=None),
-                              dict(case="compound_mid_out", wparam="flux"), dict(case="compound_last_out", wparam=None)],
+                              dict(case="compound_mid_out", wparam="flux"), dict(case="compound_last_out", wparam=None)]
+                             + _LFP,
                     "thorough": [dict(case=c, wparam=w, pattern=p) for c in CASES for w in (None, "flux")
-                                 for p in ("typical", "shared")]})
-def median_block_is_a_member_with_middle_weighted_burnup(ctx, case, wparam, pattern="typical"):
+                                 for p in ("typical", "shared")] +
+                                [dict(i, case=c) for i in _LFP for c in ("all2", "all3", "first_out")]})
+def median_block_is_a_member_with_middle_weighted_burnup(ctx, case, wparam, pattern="typical", lfp=False):
     members, elig, valid = build(ctx, case, pattern, burn=True, zeroFlux=False)
     col = make_collection("median", valid)
     col.weightingParam = wparam
     col.extend(m.b for m in members)
+    lfps = {}
+    if lfp:
+        from armi.physics.neutronics.fissionProductModel import lumpedFissionProduct as lfpmod
+        from armi.physics.neutronics.fissionProductModel.fissionProductModelSettings import CONF_FP_MODEL
+
+        for m in members:
+            lfps[m.k] = lfpmod.lumpedFissionProductFactory({CONF_FP_MODEL: "MO99"})      # one collection per member
+            m.b.setLumpedFissionProducts(lfps[m.k])
+        lfpBefore = {k: lfp_content(c) for k, c in lfps.items()}
+        assert all(lfpBefore.values())
     before = [m.snapshot() for m in members]
     rep = col.createRepresentativeBlock()
     check_unchanged(ctx, members, before, "createRepresentativeBlock (median)")
+    if lfp:
+        for m in members:
+            ctx.check("member %d keeps its lumped fission products" % m.k,
+                      m.b.getLumpedFissionProductCollection() is lfps[m.k] and lfp_content(lfps[m.k]) == lfpBefore[m.k])
     chosen = [m for m in members if m.b.name == rep.name]
     ctx.check("the representative is a copy of exactly one member", len(chosen) == 1 and rep is not chosen[0].b)
     if len(chosen) != 1:
         return
     ch = chosen[0]
     ctx.check("... of an eligible member", ch in elig)
+    if lfp:
+        ctx.check("the representative carries the lumped fission products (names, nuclide yields) of its member",
+                  lfp_content(rep.getLumpedFissionProductCollection()) == lfpBefore[ch.k])
     snap = before[ch.k]
     for c in rep:
         ctx.check("copy keeps temperature of %s" % c.name, same(c.temperatureInC, snap["T_" + c.name]))
